@@ -10,6 +10,8 @@ from ..report import fkey
 from ..rules import guards, interval
 from ..rules.common import *
 
+META = {'technique': 'static analysis: custom AST/CFG/data-flow rules; interval abstract interpretation of the clamp code over the partition induced by its comparison constants (rules/interval.py)'}
+
 EXPLANATION = (
     'Decides the clamping clauses: (A16) region abstract interpretation of DesignVariableNode.correct_value over '
     'the partition induced by its own comparison constants - for every ordering of the constants (1 option / '
